@@ -103,7 +103,13 @@ type scen struct {
 	dst     int
 	salt    uint64
 	pattern int // content shape: 0 pseudo-random, 1 all zero bytes, 2 zero tail, 3 zero head, 4 alternating zero / data blocks, 5 one repeated byte
+	// sibling > 0: the source is named like a temporary or backup sibling of the destination (dest.bin.tmp, dest.bin~,
+	// ...), as in CopyFile("report.csv.tmp", "report.csv"); only for a regular source and a destination in the same directory
+	sibling int
 }
+
+// names that tools put next to a file; files with these names next to the destination belong to somebody else
+var siblingSuffixes = []string{"", ".tmp", "~", ".bak", ".part", ".new", ".old", ".swp", ".temp", ".copy", ".1"}
 
 var patternNames = []string{"random", "all-zero", "zero-tail", "zero-head", "alternating-zero-blocks", "repeated-byte"}
 
@@ -112,7 +118,11 @@ func (s scen) String() string {
 	if s.move {
 		op = "MoveFile"
 	}
-	return fmt.Sprintf("%s size=%d content=%s source=%s destination=%s", op, s.size, patternNames[s.pattern%len(patternNames)], srcNames[s.src], dstNames[s.dst])
+	sib := ""
+	if s.sibling > 0 {
+		sib = fmt.Sprintf(" (source named destination+%q)", siblingSuffixes[s.sibling%len(siblingSuffixes)])
+	}
+	return fmt.Sprintf("%s size=%d content=%s source=%s%s destination=%s", op, s.size, patternNames[s.pattern%len(patternNames)], srcNames[s.src], sib, dstNames[s.dst])
 }
 
 func content(n int, salt uint64) []byte {
@@ -194,6 +204,11 @@ func run(s scen) (msg string, skipped bool) {
 	data := shaped(s.size, s.salt, s.pattern)
 	realSrc := filepath.Join(dir, "source.bin")
 	srcPath := realSrc
+	plainDst := s.dst == dstMissing || s.dst == dstShorter || s.dst == dstLonger || s.dst == dstSameLen
+	if s.src == srcRegular && plainDst && s.sibling%len(siblingSuffixes) > 0 {
+		realSrc = filepath.Join(dir, "dest.bin"+siblingSuffixes[s.sibling%len(siblingSuffixes)])
+		srcPath = realSrc
+	}
 	switch s.src {
 	case srcRegular:
 		must(os.WriteFile(realSrc, data, 0o644))
@@ -272,6 +287,19 @@ func run(s scen) (msg string, skipped bool) {
 	if s.src == srcMissing {
 		aliasing = false
 	}
+	// files next to the destination that belong to somebody else: whatever names the implementation likes to use for
+	// its own temporary files, these must be left alone
+	siblings := map[string][]byte{}
+	if plainDst {
+		for _, suf := range siblingSuffixes[1:] {
+			p := dstPath + suf
+			if p == realSrc || p == srcPath {
+				continue
+			}
+			siblings[p] = []byte("somebody else's file " + suf)
+			must(os.WriteFile(p, siblings[p], 0o644))
+		}
+	}
 	// ---- the call ----
 	var n int64
 	var callErr error
@@ -286,6 +314,11 @@ func run(s scen) (msg string, skipped bool) {
 	}()
 	if panicked != nil {
 		return fmt.Sprintf("panicked: %v", panicked), false
+	}
+	for p, want := range siblings {
+		if got, err := os.ReadFile(p); err != nil || !bytes.Equal(got, want) {
+			return fmt.Sprintf("a file next to the destination that was not named in the call (%s) was changed or removed (err=%v)", filepath.Base(p), err), false
+		}
 	}
 	if bystander != "" {
 		if got, err := os.ReadFile(bystander); err != nil || !bytes.Equal(got, bystanderData) {
@@ -403,10 +436,11 @@ func TestGenerated(t *testing.T) {
 	}
 	rt.Check(t, 300, 150000, func(t *rapid.T) {
 		s := scen{
-			move: rapid.Bool().Draw(t, "move"),
-			src:  rapid.SampledFrom([]int{srcRegular, srcRegular, srcRegular, srcViaSymlink, srcMissing, srcDirLinkDotDot}).Draw(t, "source"),
-			dst:  rapid.IntRange(0, numDst-1).Draw(t, "destination"),
-			salt: rapid.Uint64().Draw(t, "salt"),
+			move:    rapid.Bool().Draw(t, "move"),
+			src:     rapid.SampledFrom([]int{srcRegular, srcRegular, srcRegular, srcViaSymlink, srcMissing, srcDirLinkDotDot}).Draw(t, "source"),
+			dst:     rapid.IntRange(0, numDst-1).Draw(t, "destination"),
+			sibling: rapid.SampledFrom([]int{0, 0, 0, 1, 2, 3, 4, 5, 6, 7, 8, 9, 10}).Draw(t, "sourceNamedLikeASiblingOfTheDestination"),
+			salt:    rapid.Uint64().Draw(t, "salt"),
 		}
 		s.pattern = rapid.SampledFrom([]int{0, 0, 0, 1, 2, 2, 3, 4, 5}).Draw(t, "contentPattern")
 		if rapid.IntRange(0, 3).Draw(t, "arbitrarySize") == 0 {
